@@ -311,7 +311,7 @@ def _bounded(b):
                 try:
                     up = v1.to_v1(obj)
                 except Exception as e:
-                    if cls not in ("MatchSoftPedal",) and "tempoIndication" not in line and "Indication" not in line:
+                    if "tempoIndication" not in line and "Indication" not in line:
                         b.case("upgrade/to_v1_keeps_kind_and_musical_content", False, case, "to_v1 raised %s: %s" % (type(e).__name__, str(e)[:100]), nontrivial=nontriv, key=repr(key))
                     continue
                 good, why = True, ""
